@@ -251,8 +251,15 @@ func instrPre(c Core, i compiler.Instruction) bool {
 	case compiler.Opcode_Cast:
 		return c.okTop(1) && ast.VTypeWF(i.(compiler.CastInstruction).Type) && value.VShallowWF(c.peek(0))
 	case compiler.Opcode_Member:
-		// the member exists: a builtin member of the value's type (objects: any field the analyzer resolved)
-		return c.okTop(1) && ast.VMemberOf(value.VTypeKindOf(c.peek(0)), i.(compiler.OneStringInstruction).Value) && c.peek(0).Kind() != value.ObjectValueKind
+		// the member exists: a builtin member of the value's type or, for objects, one of its own fields
+		if !c.okTop(1) {
+			return false
+		}
+		if o, isObj := c.peek(0).(value.ValueObject); isObj {
+			_, own := o.FieldsInternal[i.(compiler.OneStringInstruction).Value]
+			return own || ast.VMemberOf(ast.ObjectTypeKind, i.(compiler.OneStringInstruction).Value)
+		}
+		return ast.VMemberOf(value.VTypeKindOf(c.peek(0)), i.(compiler.OneStringInstruction).Value)
 	case compiler.Opcode_Cloning_Push:
 		return true
 	case compiler.Opcode_Eq, compiler.Opcode_Eq_PopOnce:
@@ -515,6 +522,7 @@ func terminationOf(i *value.VmInterrupt) bool {
 /*@ func (self *VM) spawnCoreInternal
     serves C16
     assume-safety
+    norac
     requires rlocks(&self.Cores.Lock) == 0 && !wlocked(&self.Cores.Lock)
     ensures @locks-released rlocks(&self.Cores.Lock) == 0 && !wlocked(&self.Cores.Lock)
     ensures @arguments-on-stack result != nil && len(result.Stack) == len(addToStack) && forall j in 0..len(addToStack) :: result.Stack[j] != nil && *result.Stack[j] == addToStack[j]
